@@ -198,8 +198,11 @@ def generate():
     m_new = re.fullmatch(r'append\(CategoryFilterPtr::create\((rules|%s)\)\); return \*this;' % empty_arg, fc)
     m_static = re.fullmatch(r'static (?:const )?(?:auto|CategoryFilterPtr) (\w+) = CategoryFilterPtr::create\((rules|%s)\); '
                             r'append\(\1\); return \*this;' % empty_arg, fc)
-    if m_new:
-        front_obj, front_arg = 'FNew', ('ArgRules' if m_new.group(1) == 'rules' else 'ArgEmpty')
+    # a (non-static) local naming the new object is the same as creating it in the argument of append
+    m_local = re.fullmatch(r'(?:const )?(?:auto|CategoryFilterPtr) (\w+) = CategoryFilterPtr::create\((rules|%s)\); '
+                           r'append\(\1\); return \*this;' % empty_arg, fc)
+    if m_new or m_local:
+        front_obj, front_arg = 'FNew', ('ArgRules' if (m_new.group(1) if m_new else m_local.group(2)) == 'rules' else 'ArgEmpty')
     elif m_static:
         front_obj, front_arg = 'FSharedStatic', ('ArgRules' if m_static.group(2) == 'rules' else 'ArgEmpty')
     else:
